@@ -8,7 +8,7 @@ S = "ExcludeRegionState.ExcludeRegionState."
 FUNCTIONS = [P + "on_api_command", P + "on_api_get", P + "_notifyExcludedRegionsChanged", P + "_handleAddExcludeRegion",
              P + "_handleDeleteExcludeRegion", P + "_handleUpdateExcludeRegion", P + "on_event",
              S + "addRegion", S + "deleteRegion", S + "replaceRegion", S + "getRegion", S + "resetState",
-             "RectangularRegion.RectangularRegion.__init__", "CircularRegion.CircularRegion.__init__"]
+             "RectangularRegion.RectangularRegion.__init__", "CircularRegion.CircularRegion.__init__"] + ["CommonMixin.CommonMixin.toDict", P + "initialize"]
 ASSUMPTIONS = ["A1", "A3", "A4", "INDUCTION"]
 EXTRA_ASSUMPTIONS = ["CommonMixin.toDict is an injective view of a region's class and fields (payload equality is equality of region values)",
                      "uuid4 ids are unconstrained strings (collisions are handled by addRegion's check)"]
@@ -16,7 +16,9 @@ EXPLANATION = ("Unique-id invariant preserved by every registry operation and AP
                "with loop invariants over a list of symbolic length); anonymous/rejected requests leave the list untouched; "
                "every list change is followed by exactly one notification whose payload equals the new list in order, as "
                "does the GET response; file selection / clearing at print end reset and notify once.")
-BREAKERS = [{'desc': 'addRegion accepts a duplicate id',
+BREAKERS = [
+    {"module": "CommonMixin", "old": "        result['type'] = self.__class__.__name__\n", "new": "        result['type'] = self.__class__.__name__\n        result.pop('id', None)\n",
+     "desc": "region dictionaries lose the id", "functions": ["CommonMixin.CommonMixin.toDict"]},{'desc': 'addRegion accepts a duplicate id',
   'functions': ['ExcludeRegionState.ExcludeRegionState.addRegion'],
   'module': 'ExcludeRegionState',
   'new': '        if (True):',
